@@ -28,34 +28,54 @@
      pushed under its ticket; queued jobs are not lost          ring_no_job_lost
    the inductive invariant all of the above are read off     model_invariant_all_schedules
    "every join eventually returns":
-     The clause as a statement about the model (NOT PROVED for the code as it is now):
+     The clause as a statement about the model:
 
-       Theorem join_liveness : forall cfg own sched,
-         wf_cfg cfg own -> c_fixed cfg = true -> c_sigfix cfg = true -> terminating_scripts cfg = true ->
-         deadlocked cfg (fst (exec cfg sched)) = false.
-       (+ under a fair scheduler every thread that is not blocked moves eventually, and a measure
-          decreases: no livelock of the spinning loops)
+       (A) no reachable state is a deadlock:
+           forall cfg own sched, wf_cfg cfg own -> c_fixed cfg = true -> c_sigfix cfg = true ->
+             terminating_scripts cfg = true -> 0 <= c_min cfg -> 2 <= c_max cfg ->
+             deadlocked cfg (fst (exec cfg sched)) = false                       PROVED: no_reachable_deadlock
+       (B) under a fair scheduler (every thread that is not blocked moves eventually) a measure decreases:
+           no livelock of the retry loops, every join returns after finitely many moves      NOT PROVED
 
-     where deadlocked = some client has not finished and all_blocked; wf_cfg includes c_nested = false.
-     What IS proved:
-     - join_liveness_partial (supporting): the state can change no more EXACTLY when every thread is
-       blocked (so `deadlocked` is the only way a join can wait for ever once the scheduler is fair and
-       the spinning loops are left), and deadlock_is_permanent: such a state never changes again.
-       Missing: that no reachable state of a well-formed configuration is deadlocked, and the
-       fairness/measure argument.
+     where deadlocked = some client has not finished and all_blocked; wf_cfg includes c_nested = false;
+     0 <= c_min and 2 <= c_max hold for every pool the code can build (usize; the constructor raises
+     _maxThreads to 3).  (A) is proved for ALL schedules and ALL such configurations (any number of client
+     threads, futures, script operations, workers, any queue capacity >= 1) from a second inductive
+     invariant LInv (wakeup_invariant_all_schedules, FutureLiveDefs.v), the wake-up and worker-count
+     bookkeeping the repairs fixes/C10/01-03 establish:
+       - the enqueued signal: queue non-empty => _state set, or some thread is bound to set it (a producer
+         past its claim, the shrink push, a worker that popped in its second attempt: fixes 01 and 03), or a
+         worker is re-examining the queue after its reset and cannot miss the job; symmetrically for the
+         dequeued signal and the producers that found the queue full;
+       - FastSignal: _state set => the inner flag is set or somebody is inside set()/reset() past the
+         _state access and will set it (fix 02);
+       - _threadCount = live workers that have not taken a null job + contexts about to be started
+         - queued null jobs + pending decrements >= 0; _pushedJobs/_processedJobs count the claimed and the
+         completed calls; every queued call has a worker left for it after the null jobs AHEAD of it in the
+         queue, or some client is bound to start one (it stands between its push and the worker-count
+         decision with values that force the decision);
+       - the call of a started, unfinished future is in the push loop of its owner, queued, or held by a
+         worker that is not blocked.
+     Consequences proved: all_blocked_means_clients_done (a state with both invariants in which every thread
+     is blocked has no unfinished client), some_thread_can_move (while a client is unfinished some thread can
+     take a step that changes the state).  Supporting: join_liveness_partial (the state can change no more
+     EXACTLY when every thread is blocked), deadlock_is_permanent.
+     What is NOT proved is (B): that the moves cannot go on for ever without every join returning (the CAS
+     retry loops, the reset/wait loops of workers and producers) - a variant/measure argument under a
+     fairness assumption.  Every such loop iteration needs a claim or a set() by another thread, of which
+     there are finitely many per script operation; this argument is not formalised.
      - for the sleep/wake handshake as it was before           join_liveness_refuted_original (witness schedule,
        fixes/C10/01-03 the clause is FALSE                        replayed by vm_compute)
      - "started from any threads": when started functions      join_liveness_refuted_nested_start (witness
        start futures themselves (c_nested = true) the clause      schedule on the code AS IT IS NOW; open finding)
        is FALSE although they terminate and wait on no future
-     - for the code as it is now with c_nested = false: validated by exhaustive explicit-state search
-       of the model in bounded configurations (1 client/3 workers windows, capacity 4 and 1; 2 clients,
-       capacity 1, whole run) and by stress / gated replays on the real code (see the check's
-       level_note); the witness of the old handshake no longer deadlocks (Example witness_survives_fix).
+     - without a worker the clause is false: c_max = 0 (not      Example deadlock_without_workers
+       constructible with the code) deadlocks at the first join
    worker-pool sizing (grow/idle/shrink), lazy pool creation, full-queue back-pressure: part of the
    model, i.e. covered by the quantifier "every schedule" of the theorems above. *)
 From Coq Require Import ZArith List Bool Lia Arith.
-From Future Require Import FutureModel FutureRingProofs FutureProofs FutureStep FutureTheorems FutureDestroy FutureLiveness FutureNested FutureExamples.
+From Future Require Import FutureModel FutureRingProofs FutureProofs FutureStep FutureTheorems FutureDestroy FutureLiveness FutureNested FutureExamples
+  FutureLiveDefs FutureLiveMain.
 Import ListNotations.
 Local Open Scope Z_scope.
 
@@ -196,6 +216,34 @@ Theorem deadlock_is_permanent : forall cfg s tr sched,
 Proof. exact FutureLiveness.deadlock_is_permanent. Qed.
 Print Assumptions deadlock_is_permanent.
 
+Theorem wakeup_invariant_all_schedules : forall cfg own sched,
+  wf_cfg cfg own -> c_fixed cfg = true -> c_sigfix cfg = true -> terminating_scripts cfg = true ->
+  0 <= c_min cfg -> 2 <= c_max cfg ->
+  LInv cfg (fst (exec cfg sched)).
+Proof. exact wakeup_invariant_lemma. Qed.
+Print Assumptions wakeup_invariant_all_schedules.
+
+Theorem all_blocked_means_clients_done : forall cfg own s tr,
+  GInv cfg own s tr -> LInv cfg s -> all_blocked s = true -> client_unfinished cfg s = false.
+Proof. exact blocked_means_finished. Qed.
+Print Assumptions all_blocked_means_clients_done.
+
+Theorem no_reachable_deadlock : forall cfg own sched,
+  wf_cfg cfg own -> c_fixed cfg = true -> c_sigfix cfg = true -> terminating_scripts cfg = true ->
+  0 <= c_min cfg -> 2 <= c_max cfg ->
+  deadlocked cfg (fst (exec cfg sched)) = false.
+Proof. exact no_reachable_deadlock_lemma. Qed.
+Print Assumptions no_reachable_deadlock.
+
+Theorem some_thread_can_move : forall cfg own sched,
+  wf_cfg cfg own -> c_fixed cfg = true -> c_sigfix cfg = true -> terminating_scripts cfg = true ->
+  0 <= c_min cfg -> 2 <= c_max cfg ->
+  let s := fst (exec cfg sched) in
+  client_unfinished cfg s = true ->
+  exists t, (t < nthreads s)%nat /\ blocked s t = false /\ forall clk, fst (step cfg s t clk) <> s.
+Proof. exact some_thread_moves_lemma. Qed.
+Print Assumptions some_thread_can_move.
+
 (* ---------------------------------------------------------------------------------------- *)
 (* non-vacuity: a concrete configuration (code as it is now), a complete fair schedule        *)
 (* ---------------------------------------------------------------------------------------- *)
@@ -248,3 +296,32 @@ Example witness_nested_start : deadlocked ns_cfg (fst (exec ns_cfg ns_sched)) = 
 Proof. exact ns_deadlock. Qed.
 Example witness_survives_fix : deadlocked (dl_cfg true) (fst (exec (dl_cfg true) dl_sched)) = false.
 Proof. exact dl_fixed_alive. Qed.
+
+(* the hypotheses of no_reachable_deadlock hold for the configuration of the old handshake's witness, as the code is now *)
+Example ex_liveness_hypotheses :
+  wf_cfg (dl_cfg true) (fun _ => 0%nat) /\ c_fixed (dl_cfg true) = true /\ c_sigfix (dl_cfg true) = true /\
+  terminating_scripts (dl_cfg true) = true /\ 0 <= c_min (dl_cfg true) /\ 2 <= c_max (dl_cfg true).
+Proof. split; [apply dl_wf|]. repeat split; try reflexivity; cbn; lia. Qed.
+
+(* the wake-up clauses are about something: along that schedule there is a state with a queued job while the
+   enqueued signal's _state is clear (a worker between its reset and its second pop covers it), a state with
+   a worker asleep on the enqueued signal, and a state with a queued null job *)
+Example ex_wakeup_states :
+  existsb (fun n => let s := fst (exec (dl_cfg true) (firstn n dl_sched)) in
+                    (r_head (st_ring s) <? r_tail (st_ring s)) && negb (fs_state (st_enq s)))
+          (seq 0 (length dl_sched)) = true /\
+  existsb (fun n => let s := fst (exec (dl_cfg true) (firstn n dl_sched)) in
+                    existsb (fun x => match pc_of s x with PFs KWWait Enq FWait2 => negb (fs_flag (st_enq s)) | _ => false end)
+                            (seq 0 (length (st_threads s))))
+          (seq 0 (length dl_sched)) = true /\
+  existsb (fun n => let s := fst (exec (dl_cfg true) (firstn n dl_sched)) in
+                    existsb (fun k => match nth k (r_log (st_ring s)) (JCall 0 0 0 0) with JNull => (Z.of_nat k <? r_tail (st_ring s)) && (r_head (st_ring s) <=? Z.of_nat k) | _ => false end)
+                            (seq 0 (length (r_log (st_ring s)))))
+          (seq 0 (length dl_sched)) = true.
+Proof. vm_compute. repeat split; reflexivity. Qed.
+
+(* a pool that may not start a worker (c_max = 0; the code raises _maxThreads to 3) deadlocks at the first join:
+   the hypothesis 2 <= c_max of no_reachable_deadlock cannot be dropped *)
+Example deadlock_without_workers :
+  deadlocked nw_cfg (fst (exec nw_cfg (auto_sched nw_cfg (init nw_cfg) 200))) = true.
+Proof. vm_compute. reflexivity. Qed.
